@@ -139,6 +139,73 @@ fn rewrite(b: &[u8], asyncm: bool) -> Result<Vec<u8>, String> {
     a.save().map_err(|e| e.to_string())
 }
 
+/// More than 2^17 distinct contents, a part of which recur later under non-adjacent ids (tables that are
+/// bounded, re-seeded or evicted only show beyond such sizes).
+fn many_contents(rng: &mut Rng, codec: u8) -> Logical {
+    let mut l = crate::gen::gen_logical(rng, crate::gen::SizeClass::One, codec);
+    l.tiles.clear();
+    let n = 135_000u64 + rng.below(4000);
+    let mut pool: Vec<std::rc::Rc<Vec<u8>>> = Vec::with_capacity(n as usize);
+    let mut id = rng.below(1000);
+    for k in 0..n {
+        let mut c = vec![0u8; 5 + (k % 3) as usize];
+        c[..4].copy_from_slice(&(k as u32).to_le_bytes());
+        let c = std::rc::Rc::new(c);
+        pool.push(c.clone());
+        l.tiles.insert(id, c);
+        id += 1 + (k % 2);
+    }
+    for k in 0..25_000u64 {
+        // recurrences far behind the first occurrence, never adjacent to it
+        l.tiles.insert(id, pool[((k * 5 + 3) % n) as usize].clone());
+        id += 2;
+    }
+    l.class = format!("more than 2^17 distinct contents ({n}) with later recurrences");
+    l
+}
+
+fn many_contents_case(ctx: &mut Ctx, case: u64) {
+    let mut rng = ctx.rng("c16.many", case);
+    let codec = [R::C_NONE, R::C_ZSTD][(case % 2) as usize];
+    let l = many_contents(&mut rng, codec);
+    let mat = l.describe();
+    let mut outs: Vec<(&str, Vec<u8>)> = Vec::new();
+    for (label, h, asyncm) in [("sorted / sync writer", 0u32, false), ("shuffled / sync writer", 2, false), ("sorted / sync writer, second time", 0, false)] {
+        match guard(|| build(&l, h, asyncm, &mut rng)) {
+            Ok(Ok(b)) => outs.push((label, b)),
+            Ok(Err(e)) => {
+                ctx.violation("PMTiles::to_writer", "error", "building or writing along a valid history failed", &format!("{label}: {e}"), mat.clone());
+                return;
+            }
+            Err(p) => {
+                ctx.panic("PMTiles::to_writer", &p, mat.clone());
+                return;
+            }
+        }
+    }
+    ctx.case(hash_u64s(&[l.fingerprint(), 1617]), true);
+    for o in &outs[1..] {
+        if o.1 != outs[0].1 {
+            let at = o.1.iter().zip(outs[0].1.iter()).position(|(a, b)| a != b).unwrap_or(o.1.len().min(outs[0].1.len()));
+            ctx.violation(
+                "PMTiles::to_writer",
+                "history-dependent",
+                "equal logical archives serialise differently (more than 2^17 distinct contents)",
+                &format!("'{}' and '{}' give {} vs {} bytes, first difference at byte {at}", outs[0].0, o.0, outs[0].1.len(), o.1.len()),
+                json!({"archive": mat, "histories": [outs[0].0, o.0]}),
+            );
+            return;
+        }
+    }
+    match guard(|| rewrite(&outs[0].1, false)) {
+        Ok(Ok(b2)) if b2 == outs[0].1 => ctx.count("rewrites_identical"),
+        Ok(Ok(b2)) => ctx.violation("PMTiles::to_writer", "rewrite-differs", "writing an archive that was just read back changes the bytes (body)", &format!("{} vs {} bytes", outs[0].1.len(), b2.len()), mat.clone()),
+        Ok(Err(e)) => ctx.violation("PMTiles::to_writer", "error", "re-writing a just-read archive failed", &e, mat.clone()),
+        Err(p) => ctx.panic("PMTiles::to_writer", &p, mat.clone()),
+    }
+    ctx.count("archives_with_more_than_131072_distinct_contents");
+}
+
 fn xproc(ctx: &mut Ctx) {
     // every process computes the same K outputs; the driver compares them across OS processes
     let k = ctx.n(48, 240);
@@ -153,7 +220,16 @@ fn xproc(ctx: &mut Ctx) {
         }
         ctx.case(l.fingerprint() ^ ctx.shard, true);
     }
-    ctx.add("xproc_outputs", k);
+    {
+        // one archive with more than 2^17 distinct contents
+        let mut rng = ctx.rng("c16.xproc.many", 0);
+        let l = many_contents(&mut rng, R::C_NONE);
+        match guard(|| build(&l, 2, false, &mut rng)) {
+            Ok(Ok(b)) => fps.push(json!(format!("{:016x}", hash_bytes(&b)))),
+            _ => fps.push(json!("error")),
+        }
+    }
+    ctx.add("xproc_outputs", k + 1);
     let key = format!("xproc_{}", ctx.shard);
     ctx.extra(&key, json!({"pid": std::process::id(), "fps": fps}));
 }
@@ -164,6 +240,14 @@ pub fn run(ctx: &mut Ctx) {
         return;
     }
     let n = ctx.n(320, 6000);
+    for k in 0..ctx.n(2, 8) {
+        let case = n + k;
+        if ctx.mine(case) {
+            ctx.begin(case);
+            many_contents_case(ctx, case);
+            ctx.end(case);
+        }
+    }
     for i in 0..n {
         if !ctx.mine(i) {
             continue;
